@@ -173,6 +173,9 @@ func (vm *VirtualMachine) runCodeInternal(ctx context.Context, codeToRun *compil
 		if r := recover(); r != nil {
 			err = fmt.Errorf("panic: %v", r)
 		}
+		if err != nil {
+			vm.unwind()
+		}
 		vm.stop()
 	}()
 
@@ -216,6 +219,19 @@ func (vm *VirtualMachine) runCodeInternal(ctx context.Context, codeToRun *compil
 
 	// Run the entrypoint until completion
 	return vm.eval(vm.initContext(ctx))
+}
+
+// unwind discards the operands and call frames that a failed run left behind,
+// so that a later Call on this VM starts from the same state as on a VM whose
+// run succeeded.
+func (vm *VirtualMachine) unwind() {
+	for i := 0; i < MaxStackDepth && i <= vm.sp; i++ {
+		vm.stack[i] = nil
+	}
+	vm.sp = -1
+	vm.fp = 0
+	vm.activeFrame = &vm.frames[0]
+	vm.activeCode = vm.activeFrame.code
 }
 
 // resetForNewCode resets the VM state for running a new code object
